@@ -170,3 +170,44 @@ Example order_example :
   map a_name (sorted_attrs [58] [a [105;100]; a (58 :: d_text); a (58 :: d_range); a [99]; a (58 :: d_else); a (58 :: d_with)])
   = [58 :: d_with; 58 :: d_else; 58 :: d_range; 58 :: d_text; [105;100]; [99]].
 Proof. vm_compute. reflexivity. Qed.
+
+(* ---- "a dynamic attribute replaces the static attribute of the same name" (Proofs/DynReplaces.v) ----
+   For ANY element whose prefixed attributes are all dynamic attributes (dyn_elem: not a block tag, no directive), any
+   plain attributes, any written order: the rendered element is the specification spec_open_tag — '<' name, then every
+   dynamic attribute  n="escape v"  once in written order, then the plain attributes that are NOT named like a dynamic
+   attribute, verbatim, once, in written order, '>' — followed by the children and the end tag; a dynamic attribute that
+   fails prints nothing and fails the render with its cause.  Names are compared byte for byte, like everywhere in the
+   library: a twin written in another letter case survives (DynReplaces.other_case_static_survives_observed; the
+   implementation agrees, recorded as an observation). *)
+From Tpl Require Import Proofs.DynReplaces.
+Theorem dynamic_replaces_static : forall is_space to_lower is_letter is_udigit methods call_fn mgr exec mask ctx n tok sc top t st,
+  dyn_elem to_lower mgr n tok -> no_plain_directive_name mgr (t_attrs tok) ->
+  exec_body is_space to_lower is_letter is_udigit methods call_fn mgr exec mask ctx n sc top t st =
+  (let (s, lg) := eval_dyns is_letter is_udigit methods call_fn mgr (dyns_of mgr (t_attrs tok)) sc (r_log st) in
+   match s with
+   | inl values => spec_elem exec (spec_open_tag mgr (t_name tok) (statics_of mgr (t_attrs tok)) (dyns_of mgr (t_attrs tok)) values)
+                             n sc top t (set_log st lg)
+   | inr e => (nil, e, t, set_log st lg)
+   end).
+Proof. exact DynReplaces.dynamic_replaces_static. Qed.
+Theorem dynamic_replaces_static_node : forall is_space to_lower is_letter is_udigit methods call_fn mgr fuel mask ctx n tok sc top t st values lg co t2 st2,
+  dyn_elem to_lower mgr n tok -> no_plain_directive_name mgr (t_attrs tok) ->
+  eval_dyns is_letter is_udigit methods call_fn mgr (dyns_of mgr (t_attrs tok)) sc (r_log st) = (inl values, lg) ->
+  exec_list (exec_node is_space to_lower is_letter is_udigit methods call_fn mgr fuel) (n_children n) (n_children n) sc top t (set_log st lg)
+    = (co, ROk, t2, st2) ->
+  RenderPlain.wok top st -> RenderPlain.wok top st2 ->
+  exec_node is_space to_lower is_letter is_udigit methods call_fn mgr (S fuel) mask ctx n sc top t st =
+  (spec_open_tag mgr (t_name tok) (statics_of mgr (t_attrs tok)) (dyns_of mgr (t_attrs tok)) values ++ co ++ DynReplaces.end_text n, ROk, t2, st2).
+Proof. exact DynReplaces.dynamic_replaces_static_node. Qed.
+Theorem dynamic_attribute_fails : forall is_space to_lower is_letter is_udigit methods call_fn mgr exec mask ctx n tok sc top t st e lg,
+  dyn_elem to_lower mgr n tok ->
+  eval_dyns is_letter is_udigit methods call_fn mgr (dyns_of mgr (t_attrs tok)) sc (r_log st) = (inr e, lg) ->
+  exec_body is_space to_lower is_letter is_udigit methods call_fn mgr exec mask ctx n sc top t st = (nil, e, t, set_log st lg).
+Proof. exact DynReplaces.dynamic_attribute_fails. Qed.
+(* exactly one attribute of each name is printed *)
+Theorem printed_names_distinct : forall mgr attrs, NoDup (map a_name attrs) ->
+  NoDup (printed_names mgr (statics_of mgr attrs) (dyns_of mgr attrs)).
+Proof. exact DynReplaces.printed_names_distinct. Qed.
+Print Assumptions dynamic_replaces_static.
+Print Assumptions dynamic_replaces_static_node.
+Print Assumptions printed_names_distinct.
